@@ -6,7 +6,8 @@ import os
 VERIF = os.path.dirname(os.path.dirname(os.path.abspath(__file__)))
 
 COMMON_NOTE = ("Trusted: Lean 4.33.0 kernel (+ leanchecker in thorough); axioms ⊆ {propext, Classical.choice, Quot.sound} audited per "
-               "theorem on every run; tools/gen_tables.py (translator) and the correspondence harness. The theorems are about the Lean "
+               "theorem on every run; tools/gen_tables.py (translator of tables, constants, predicates) and tools/py2lean.py (translator of small "
+               "pure functions; a function outside its subset is refused and carried by the correspondence alone) and the correspondence harness. The theorems are about the Lean "
                "model; the model is tied to /repo's working tree on every run by regenerated tables (bridge theorems) and by the "
                "differential run whose coverage is in the evidence. Modelled, not verified: CPython semantics of the constructs used. ")
 
@@ -88,7 +89,7 @@ CHECKS = {
        "unify_lw/unify_stack/unify_bph_br (all case variants, n prefix, a suffix), unify_total, and for ALL ASCII strings "
        "unify_other_iff (label is 'other' iff not in the explicit grammar Recognised); line_yields_one, line_skipped_iff, listing_total "
        "(never raises; kept lines = lines meeting the line spec, in order); dssr_pairs_exact, dssr_stacks_exact, dssr_total. Bridges pin "
-       "the regenerated literal tables and the 18-member LW test (dssr_lw_test_exact).",
+       "the regenerated literal tables and the 18-member LW test (dssr_lw_test_exact). Props.C19Fn: match_dssr_lw regenerated from the source text and proved equal to Labels.matchLw for every string.",
   note="Python int() is modelled (whitespace, sign, underscores, 4300-digit limit) and compared exhaustively up to length 4/5, not "
        "proved against a grammar; non-ASCII labels (str.upper() surprises) are outside the statement's alphabet and only counted; "
        "adapter.main not modelled (public wrappers compared on 184D).",
@@ -111,7 +112,7 @@ CHECKS = {
        "(dot_rot, triple_rot, binet, torsion_rigid_invariant → C18_v1), reversal keeps and mirroring negates the value; for tertiary_v2 "
        "the same computation gives −φ (v2_returns_neg_phi, v2_eq_neg_v1): the full claim is kept as C18_v2_full with a proved negation "
        "(C18_v2_full_false) and the true part as v2_returns_phi_partial. The −φ defect is a KNOWN FINDING (the two pinned tests fix opposite "
-       "conventions); every other deviation (magnitude, range, laws, v1) is still reported.",
+       "conventions); every other deviation (magnitude, range, laws, v1) is still reported. Props.C18Fn: Residue3D.chi_class regenerated from the source text; syn iff lo° < χ < hi° with the regenerated bounds, for every positive radians factor; nan has no class.",
   note="Float round-off, numpy cross/dot/norm and math.atan2 are outside the model (agreement demanded within 1e-9 on exactly representable "
        "rational inputs); that every non-degenerate quadruple is a rigidly moved canonical one is by construction, not proved; "
        "'A-form χ is anti' is checked on the corpus.",
@@ -124,7 +125,7 @@ CHECKS = {
        "gaps, 1..N in file order), bpseq_valid, strands_concat, slices_concat, dot_bracket_faithful; extended rows: "
        "ext_rows_balanced_len, ext_rows_greedy_rows_are_matchings, ext_rows_encode_each_once (every distinct input pair exactly once under "
        "its class, with the row-allocation shape regenerated from the source and pinned by a bridge; the two-row variant is proved false "
-       "on a witness). Bridges: canonical test, both scoring copies and both gap-rule copies agree, connectivity threshold 1.5·1.6.",
+       "on a witness). Bridges: canonical test, both scoring copies and both gap-rule copies agree, connectivity threshold 1.5·1.6. Props.C06Fn: Saenger.is_canonical, BasePair3D.score, BasePair3D.is_canonical and both copies of pair_scoring_function are regenerated from the source text and proved equal to Mapping.isCanonical / Mapping.pairScore and the regenerated score tables for all classes and ASCII letters.",
   note="Ties in the conflict-resolution sort that depend on Python set order are flagged by the model and compared by specification only; "
        "the level choice of the per-strand dot-bracket comes from the MILP solver (relational, via C01/C02); Lean reasons about tokens.",
   technique="Lean 4 proof (conflict-resolution loop invariant, numbering, row allocation) + functional/spec correspondence on corpus and synthetic structures × random pair lists",
@@ -135,7 +136,7 @@ CHECKS = {
        "written line gives back all 16 fields; 1–4 character names with the alignment rule, 2-letter elements, negative numbers, charge n±); "
        "writePdb_structure (MODEL/ENDMDL around every model, TER after every chain — with the writer's behaviour flag regenerated from "
        "the source; the pre-fix writer is proved to violate it on a two-row witness); pdb_pdb / pdb_cif_pdb / cif_pdb_cif round trips; "
-       "bridges: reader slices = writer offsets = PDB column layout, widths and limits, mmCIF columns and null markers. Props.C09Splitter transports the round-trip and layout theorems to splitter.main: one file per model number (multiset partition of the rows), each PDB file = exactly one MODEL…ENDMDL block with a TER after every chain, reads back to that model's rows for every table within limits, C10 guarantees per model when fitting is needed (skipped ⇔ no fit exists). The splitter runs are compared file by file with the model (split.run), including mmCIF tables that need fitting per model.",
+       "bridges: reader slices = writer offsets = PDB column layout, widths and limits, mmCIF columns and null markers. Props.C09Splitter transports the round-trip and layout theorems to splitter.main: one file per model number (multiset partition of the rows), each PDB file = exactly one MODEL…ENDMDL block with a TER after every chain, reads back to that model's rows for every table within limits, C10 guarantees per model when fitting is needed (skipped ⇔ no fit exists). The splitter runs are compared file by file with the model (split.run), including mmCIF tables that need fitting per model. Props.C09Fn: the atom-name alignment rule of _format_pdb_atom_line is regenerated from the source text and proved equal to Pdb.atomNameFmt 4 4 (the rule inside formatAtom) for every name starting with an ASCII character.",
   note="Assumed and validated differentially: Python's ':8.3f' / ':6.2f' of the double nearest to k/1000 prints k/1000 and to_numeric reads "
        "it back; pandas dtypes; the mmcif tokeniser and quoting. mmCIF→mmCIF has no Lean model beyond null markers (correspondence only). "
        "Charge 0 is identified with absent; literal '?'/'.' values are outside the quantifier.",
@@ -157,7 +158,7 @@ CHECKS = {
        "orientation of the centroid vector written out), stackings_once, stackings_sorted, stackings_lower_first, topology_label; over ℝ "
        "the angle clauses are equivalent to their polynomial forms (angle_normals_iff, angle_vector_iff, distance_iff) and the rational "
        "enclosures of cos²35°, cos²45° are PROVED to enclose (enclosures_hold, width ≤ 1e-15), giving model_sound / model_complete "
-       "(every real stacking is listed or flagged undecided). Bridges: thresholds 6 Å / 35° / 45°, base-atom tables, normal atoms.",
+       "(every real stacking is listed or flagged undecided). Bridges: thresholds 6 Å / 35° / 45°, base-atom tables, normal atoms. Props.C04Fn: StackingTopology.reverse regenerated from the source text and proved equal to the table (involution fixing exactly inward/outward); angle_between_vectors evaluates acos inside its domain for every cosine incl. nan.",
   note="Float geometry (numpy), the KD-tree query and ordering by Python tuples are outside the model; agreement is demanded outside a "
        "1e-6 band around each threshold (undecided cases counted). The statement's centroid vector is read as c_i − c_j with i before j "
        "in file order (DESIGN §11). Residue keys assumed distinct; multi-model inputs with model=None not compared.",
@@ -168,7 +169,7 @@ CHECKS = {
        "(list = filter of d² ≤ (r_a + r_b + mp)² under the five options), clashes_once, clash_symmetric, kd_radius_sufficient (the KD-tree "
        "query radius covers every radius sum — decide over the regenerated radii), grid_shortcut_sound, residue_max_correct, "
        "chain_max_correct (printed maxima = maxima over the listed clashes; depends on a bridge regenerated from the source), "
-       "csv_rows_eq_clashes, occupancy_literal / clashes_eq_spec.",
+       "csv_rows_eq_clashes, occupancy_literal / clashes_eq_spec. Props.C17Fn: AtomType.radius / matches and classify_clash regenerated from the source text and proved equal to Clash.radius, Clash.typed and the O3'–phosphate-oxygen rule.",
   note="Float distance and the SciPy KD-tree are outside the model (undecided band 1e-6); occupancy sums in stdout compared with "
        "tolerance 1e-9; metadata columns of the CSV come from the mmcif package.",
   technique="Lean 4 proof (definition = filter, maxima, radius sufficiency by decide) + exact-rational model vs find_clashes for all 32 option sets, main() stdout and CSV",
@@ -191,7 +192,7 @@ CHECKS = {
        "spec_of_sandwich); over ℝ the 50–130° clause is equivalent to (n·v)² < cos²50°·|n|²|v|² (angle_range_iff) with a rational "
        "enclosure of cos²50° PROVED to enclose (cosSq50_encloses), cis/trans is the sign of (v₁×v₂)·(v₂×v₃) (cis_iff), and the exact "
        "rational model is sound for the real-number conditions (model_*_sound). Bridges pin the regenerated chemistry tables and "
-       "thresholds 4.0 Å / 50° / 130° / 2 and that each atom is listed once (points_nodup — the O2' doubling fixed in f3fb2f0). Props.C03Loop: find_pairs is also modelled FUNCTIONALLY (Model/FindPairs.lean: point order, look-up of atom/type/residue per point as the source does it (regenerated switch), candidates in ascending index order, the order-dependent consumption of donor → oxygen contacts with used_atoms, labels, most_common, greedy occupation, both sorts, merge_and_clean, Saenger). Proved: loop_refines_relational (the hydrogen bonds the loop collects are contacts of the relational model and contain every decided base-to-base contact), findPairs_meets_specPairs (on decided inputs the executable checker specPairs reports no failure on the functional model's own base-pair list), prefilter_exact (contacts = contactsAll: the bounding-ball pre-filter loses nothing).",
+       "thresholds 4.0 Å / 50° / 130° / 2 and that each atom is listed once (points_nodup — the O2' doubling fixed in f3fb2f0). Props.C03Loop: find_pairs is also modelled FUNCTIONALLY (Model/FindPairs.lean: point order, look-up of atom/type/residue per point as the source does it (regenerated switch), candidates in ascending index order, the order-dependent consumption of donor → oxygen contacts with used_atoms, labels, most_common, greedy occupation, both sorts, merge_and_clean, Saenger). Proved: loop_refines_relational (the hydrogen bonds the loop collects are contacts of the relational model and contain every decided base-to-base contact), findPairs_meets_specPairs (on decided inputs the executable checker specPairs reports no failure on the functional model's own base-pair list), prefilter_exact (contacts = contactsAll: the bounding-ball pre-filter loses nothing). Function translator (Props.C03Fn): Residue3D.__lt__, Residue3D.find_atom, detect_cis_trans and the clamped argument of acos in angle_between_vectors are regenerated from the source text on every run (tools/py2lean.py) and proved equal to Pairs.resLt / findAtom / the decision structure of cisTri / clamp∈[-1,1] for all arguments and all behaviours of torsion_angle.",
   note="That the float / KD-tree stage hands the occupation stage a label multiset between 'base-to-base contacts' and 'all contacts' is "
        "carried by the relational correspondence (exact contact sets recomputed in Rat; contacts within 1e-6 of a threshold undecided), "
        "not by proof; O2' contacts count as support only, as the property says. The functional model is tied to the code by the FUNCTIONAL correspondence c03_loop: the three lists find_pairs returns, in order, must equal the model's whenever no decision quantity is inside the 1e-6 band; shape conditions of the refinement theorems: `Regular` (each atom listed once, every residue analysed and carrying an identity, no coincident atoms while the source keys its look-ups by coordinates — since the repair it keys them by point index).",
@@ -202,7 +203,7 @@ CHECKS = {
        "get the same Saenger class), saenger_present_iff_defined, lw_reverse_involutive/closed/swaps_edges — and about the assembly stage: "
        "pairs_sorted_nodup_oriented (sorted, no repeats, lower residue first, no self pairs), mergeClean_one_class_per_pair, "
        "mergeClean_rules (3∧5→4, 7∧9→8), bph_class_from_donor / bph_class_decided (class implied by the donor atoms in contact). The "
-       "well-formedness specification is evaluated on the real extract_base_interactions output for every structure and model. Props.C11Loop / C03Loop: bph_br_sound (every recorded contact: base donor → named oxygen, different residues, within the distance band, class from bphClasses), used_atoms_exclusive, bph_br_output, specBph_holds (the executable checker specBph reports no failure on the functional model's lists).",
+       "well-formedness specification is evaluated on the real extract_base_interactions output for every structure and model. Props.C11Loop / C03Loop: bph_br_sound (every recorded contact: base donor → named oxygen, different residues, within the distance band, class from bphClasses), used_atoms_exclusive, bph_br_output, specBph_holds (the executable checker specBph reports no failure on the functional model's lists). Props.C11Fn: LeontisWesthof.reverse/__lt__, Residue.chain/number/icode/name/__lt__/molecule_type, Residue3D.find_atom, detect_saenger and detect_bph_br_classification are regenerated from the source text and proved equal to Pairs.lwReverse, RKey.lt, Pairs.saenger and — for every letter, donor name, atom set and torsion oracle — to the lookup in the regenerated BPh table (bphClass_eq_table).",
   note="Participants ⊆ residues of the analysed model and the 4.0 Å donor→oxygen distance are checked on real outputs (exact rational "
        "re-derivation), not proved of the float code; write_csv/write_json rows are compared with the lists. The donor→oxygen clauses are proved of the functional model of find_pairs, which equals the code on decided inputs (c03_loop).",
   technique="Lean 4 proof by decide over regenerated tables + assembly-stage theorems + specification predicates on real annotations of all models",
